@@ -14,13 +14,16 @@
            7 GenericArray<W, U3>
            8 KeepBig {id, s, key: [u8; 20]}  zeroize -> {id, 0, 0..},  DEFAULT = default() = {3, 5, 0..}
              (code as for Keep; key material left unwiped shows as a code >= 2^40)
+           9 Inv(u8)       zeroize -> 0xFF,          DEFAULT = default() = 0
+           10 Page {tag, fill: [u8; 4999]}  zeroize -> all zero, DEFAULT = default() = all zero
            element code: little-endian packing of the fields (u16 fields: a + 65536 b;
            byte arrays: b0 + 256 b1 + 65536 b2)
    observables: [N; elements ...] *)
 From GA Require Import Base Codec ZeroDefault.
 Local Open Scope Z_scope.
 
-Definition zero_of (ty : Z) (x : Z) : Z := if (ty =? 5) || (ty =? 8) then x mod 65536 else 0.
+Definition zero_of (ty : Z) (x : Z) : Z :=
+  if (ty =? 5) || (ty =? 8) then x mod 65536 else if ty =? 9 then 255 else 0.
 
 Definition default_of (ty : Z) : Z :=
   if ty =? 4 then 7 + 9 * 65536
